@@ -139,6 +139,12 @@ structure BSt where
   farmSupplyWeek : Nat → Nat
   /-- `boostedYieldsConfig` as stored (`none` = empty mapper) -/
   cfg : Option BCfg
+  /-- ghost: boosted cut accumulated into week `w`'s pool so far -/
+  cutW : Nat → Nat
+  /-- ghost: boosted rewards paid out of week `w`'s pool so far -/
+  paidW : Nat → Nat
+  /-- ghost: what was moved from week `w`'s pool to the undistributed counter -/
+  collW : Nat → Nat
 
 /-- `FarmBoostedYieldsWrapper::collect_rewards_for_week`: store the config updated to the current
     week, take the week's accumulated rewards, set them as the week's remaining pool. -/
@@ -172,7 +178,8 @@ def boostedRewards (mem : BCfg) (userFarm : Nat) : Weekly.RewardFn BSt :=
             if u = 0 then pure (r.1, r.2.1, [])
             else do
               let rem ← sub? (r.2.1.remaining week) u
-              pure (r.1, { r.2.1 with remaining := upd r.2.1.remaining week rem }, [(tok, u)])
+              pure (r.1, { r.2.1 with remaining := upd r.2.1.remaining week rem
+                                      paidW := upd r.2.1.paidW week (r.2.1.paidW week + u) }, [(tok, u)])
         | _ => none
 
 /-! ### State -/
@@ -249,7 +256,8 @@ structure Out where
   deriving DecidableEq, Repr
 
 def BSt.init : BSt :=
-  { accum := fun _ => 0, remaining := fun _ => 0, farmSupplyWeek := fun _ => 0, cfg := none }
+  { accum := fun _ => 0, remaining := fun _ => 0, farmSupplyWeek := fun _ => 0, cfg := none
+    cutW := fun _ => 0, paidW := fun _ => 0, collW := fun _ => 0 }
 
 def init (kind : Kind) (sameTok : Bool) (dsc perBlock : Nat) (produce : Bool) (users : List Nat)
     (epoch0 : Nat) : St :=
@@ -295,7 +303,8 @@ def takeRewardSlice (s : St) (full : Nat) : Option (St × Nat) :=
     if cut = 0 then some (s, 0)
     else do
       let W ← s.week
-      pure ({ s with b := { s.b with accum := upd s.b.accum W (s.b.accum W + cut) } }, cut)
+      pure ({ s with b := { s.b with accum := upd s.b.accum W (s.b.accum W + cut)
+                                     cutW := upd s.b.cutW W (s.b.cutW W + cut) } }, cut)
 
 /-- `generate_aggregated_rewards` of `Wrapper` / `NoMintWrapper` on a live cache. -/
 def generate (s : St) (c : Cache) : Option (St × Cache) :=
@@ -359,6 +368,10 @@ def payReward (s : St) (energyUser base boosted : Nat) : Option St := do
         let bal ← sub? s1.balReward amount
         pure { s1 with balReward := bal }
     | .noMint => lockVirtual s1 energyUser amount
+
+/-- pay only in farms of kind `k` (the two contracts pay the boosted part of `enterFarm` at different points) -/
+def payRewardIf (s : St) (k : Kind) (energyUser base boosted : Nat) : Option St :=
+  if s.kind = k then payReward s energyUser base boosted else some s
 
 /-- `claim_only_boosted_payment(caller)`: boosted rewards, subtracted from `reward_reserve` DIRECTLY
     in storage (only called while no cache is alive). -/
@@ -448,9 +461,7 @@ def enterCore (s : St) (caller orig tokenTo : Nat) (amt : Nat) (extra : List (Na
   let (s1, boosted) ← claimOnlyBoostedPayment s0 orig
   -- fwlr locks the boosted part before entering; farm sends it afterwards: same net effect on the farm,
   -- but the energy of `orig` changes before `update_energy_and_progress` in fwlr
-  let s1 ← match s1.kind with
-    | .noMint => payReward s1 orig 0 boosted
-    | .mint => some s1
+  let s1 ← payRewardIf s1 .noMint orig 0 boosted
   let c := Cache.read s1
   req s1.active
   let s2 ← checkAndUpdate s1 orig extra
@@ -462,9 +473,7 @@ def enterCore (s : St) (caller orig tokenTo : Nat) (amt : Nat) (extra : List (Na
   let (s5, n) ← createToken s4 tokenTo merged
   let s6 ← setFarmSupplyWeek s5 c2.supply
   let s7 := Cache.drop s6 c2
-  let s8 ← match s7.kind with
-    | .mint => payReward s7 orig 0 boosted
-    | .noMint => some s7
+  let s8 ← payRewardIf s7 .mint orig 0 boosted
   let s9 ← updateEnergyAndProgress s8 orig
   pure (s9, { nonce := n, amt := merged.amt, rew := boosted, boosted := boosted })
 
@@ -489,46 +498,46 @@ def enterFarmOnBehalf (s : St) (caller user : Nat) (amt : Nat) (extra : List (Na
   req (allOwnedBy s user extra)
   enterCore s caller user caller amt extra
 
+/-- the end of `claimRewards` (pay the reward out) / of `compoundRewards` (the reward stays in the
+    contract as farming tokens; `update_energy_and_progress`) -/
+def claimTail (s : St) (compound : Bool) (orig base boosted : Nat) : Option St :=
+  if compound then do
+    let bal ← sub? s.balReward (base + boosted)
+    let s1 := { s with balReward := bal, balFarming := s.balFarming + (base + boosted)
+                       paid := s.paid + (base + boosted), paidBase := s.paidBase + base
+                       paidBoosted := s.paidBoosted + boosted }
+    updateEnergyAndProgress s1 orig
+  else payReward s orig base boosted
+
 /-- `claim_rewards_base` + endpoint tail; `compound = true` is `compound_rewards_base`. -/
 def claimCore (s : St) (caller orig : Nat) (pays : List (Nat × Nat)) (compound : Bool) :
     Option (St × Out) := do
-  match pays with
-  | [] => none
-  | (n1, a1) :: rest => do
-    let s0 ← takePayments s caller pays
-    let c := Cache.read s0
-    req s0.active
-    if compound then req s0.sameTok
-    let at1 ← s0.attrs n1
-    let (s1, c1) ← generate s0 c
-    let part ← at1.intoPart a1
-    let base := baseReward s1.dsc c1.rps a1 part.rps
-    let (s2, boosted) ← claimBoostedYields s1 orig
-    let reward := base + boosted
-    let res ← sub? c1.reserve reward
-    let c2 := { c1 with reserve := res, supply := if compound then c1.supply + reward else c1.supply }
-    let s3 ← checkAndUpdate s2 orig pays
-    let baseAttr : Attr :=
-      if compound then
-        { rps := c2.rps, epoch := s3.epoch, comp := part.comp + reward, amt := part.amt + reward, owner := orig }
-      else
-        { rps := c2.rps, epoch := part.epoch, comp := part.comp, amt := part.amt, owner := orig }
-    let merged ← mergeParts s3 baseAttr rest
-    let s4 := if compound then increaseUser s3 orig reward else s3
-    let (s5, n) ← createToken s4 caller merged
-    let s6 ← setFarmSupplyWeek s5 c2.supply
-    let s7 := Cache.drop s6 c2
+  let (n1, a1) ← pays.head?
+  let s0 ← takePayments s caller pays
+  let c := Cache.read s0
+  req s0.active
+  req (compound = true → s0.sameTok = true)
+  let at1 ← s0.attrs n1
+  let (s1, c1) ← generate s0 c
+  let part ← at1.intoPart a1
+  let base := baseReward s1.dsc c1.rps a1 part.rps
+  let (s2, boosted) ← claimBoostedYields s1 orig
+  let reward := base + boosted
+  let res ← sub? c1.reserve reward
+  let c2 : Cache := { c1 with reserve := res, supply := if compound then c1.supply + reward else c1.supply }
+  let s3 ← checkAndUpdate s2 orig pays
+  let baseAttr : Attr :=
     if compound then
-      -- the reward stays in the contract as farming tokens
-      let bal ← sub? s7.balReward reward
-      let s8 := { s7 with balReward := bal, balFarming := s7.balFarming + reward
-                          paid := s7.paid + reward, paidBase := s7.paidBase + base
-                          paidBoosted := s7.paidBoosted + boosted }
-      let s9 ← updateEnergyAndProgress s8 orig
-      pure (s9, { nonce := n, amt := merged.amt, rew := reward, base := base, boosted := boosted })
-    else do
-      let s8 ← payReward s7 orig base boosted
-      pure (s8, { nonce := n, amt := merged.amt, rew := reward, base := base, boosted := boosted })
+      { rps := c2.rps, epoch := s3.epoch, comp := part.comp + reward, amt := part.amt + reward, owner := orig }
+    else
+      { rps := c2.rps, epoch := part.epoch, comp := part.comp, amt := part.amt, owner := orig }
+  let merged ← mergeParts s3 baseAttr pays.tail
+  let s4 := if compound then increaseUser s3 orig reward else s3
+  let (s5, n) ← createToken s4 caller merged
+  let s6 ← setFarmSupplyWeek s5 c2.supply
+  let s7 := Cache.drop s6 c2
+  let s8 ← claimTail s7 compound orig base boosted
+  pure (s8, { nonce := n, amt := merged.amt, rew := reward, base := base, boosted := boosted })
 
 /-- `claimRewards(opt_orig_caller)` -/
 def claimRewards (s : St) (caller : Nat) (opt : Option Nat) (pays : List (Nat × Nat)) :
@@ -569,6 +578,16 @@ def exitPenalty (s : St) (amount enteringEpoch : Nat) : Option Nat := do
   let d ← sub? s.epoch enteringEpoch
   if s.minFarmingEpochs ≤ d then pure 0 else pure (amount * s.penaltyPct / MAXPCT)
 
+/-- `clear_user_energy_if_needed(orig)` -/
+def clearUserEnergyIfNeeded (s : St) (orig : Nat) : Option St :=
+  match s.b.cfg with
+  | none => some s
+  | some cfg => do
+      let W ← s.week
+      let mem ← cfg.update W none
+      let g ← Weekly.clearUserEnergy s.w orig W s.epoch (s.userTotal orig) mem.latest.minF
+      pure { s with w := g }
+
 /-- `exitFarm(opt_orig_caller)` with one farm-token payment -/
 def exitFarm (s : St) (caller : Nat) (opt : Option Nat) (n a : Nat) : Option (St × Out) := do
   let orig ← origCaller s caller opt
@@ -592,14 +611,7 @@ def exitFarm (s : St) (caller : Nat) (opt : Option Nat) (n a : Nat) : Option (St
   let bal ← sub? s5.balFarming part.amt
   let s6 := { s5 with balFarming := bal, penaltyBurned := s5.penaltyBurned + pen }
   let s7 ← payReward s6 orig base boosted
-  -- clear_user_energy_if_needed(orig)
-  let s8 ← match s7.b.cfg with
-    | none => some s7
-    | some cfg => do
-        let W ← s7.week
-        let mem ← cfg.update W none
-        let g ← Weekly.clearUserEnergy s7.w orig W s7.epoch (s7.userTotal orig) mem.latest.minF
-        pure { s7 with w := g }
+  let s8 ← clearUserEnergyIfNeeded s7 orig
   pure (s8, { rew := reward, farming := out, base := base, boosted := boosted })
 
 /-- `merge_from_payments_and_burn` -/
@@ -681,9 +693,12 @@ def setFactors (s : St) (caller : Nat) (f : Factors) : Option St := do
   | none => pure { s with b := { s.b with cfg := some (BCfg.new W f) } }
 
 /-- the loop of `collect_undistributed_boosted_rewards` over weeks `first … first + n − 1` -/
-def collectWeeks (remaining : Nat → Nat) (undist : Nat) (first : Nat) : Nat → (Nat → Nat) × Nat
-  | 0 => (remaining, undist)
-  | n + 1 => collectWeeks (upd remaining first 0) (undist + remaining first) (first + 1) n
+def collectWeeks (b : BSt) (undist : Nat) (first : Nat) : Nat → BSt × Nat
+  | 0 => (b, undist)
+  | n + 1 =>
+      collectWeeks { b with remaining := upd b.remaining first 0
+                            collW := upd b.collW first (b.collW first + b.remaining first) }
+        (undist + b.remaining first) (first + 1) n
 
 def collectUndistributed (s : St) (caller : Nat) : Option St := do
   req (s.isAdmin caller)
@@ -693,8 +708,8 @@ def collectUndistributed (s : St) (caller : Nat) : Option St := do
   let last := W - (Weekly.USER_MAX_CLAIM_WEEKS + 1)
   if last < first then pure s
   else
-    let r := collectWeeks s.b.remaining s.undist first (last + 1 - first)
-    pure { s with b := { s.b with remaining := r.1 }, undist := r.2, lastCollect := last }
+    let r := collectWeeks s.b s.undist first (last + 1 - first)
+    pure { s with b := r.1, undist := r.2, lastCollect := last }
 
 def setActive (s : St) (caller : Nat) (v : Bool) : Option St := do
   req (s.isAdmin caller)
